@@ -1329,7 +1329,8 @@ class CSSMatch(_DocumentNav):
         if directionality & ct.SEL_DIR_LTR and directionality & ct.SEL_DIR_RTL:
             return False
 
-        if el is None or not self.is_html_tag(el):
+        # `:dir()` only applies to HTML elements of HTML documents
+        if el is None or not self.is_html or not self.is_html_tag(el):
             return False
 
         # Element has defined direction of left to right or right to left
